@@ -17,7 +17,9 @@ CASE_TYPE = 'case'
 CHECK = 'check_case'
 SHARD_SIZE = 300
 RULE = ('routing: histories of {logging <module|.|""|None|unknown> <level>, emit(module, levelno), *IDN?, disconnect} on 1..3 '
-        'fake connections and 1..3 real Modules behind a real Dispatcher + RemoteLogHandler; levels: all valid names, '
+        'fake connections and 1..3 real Modules behind a real Dispatcher + RemoteLogHandler; any subset of the modules of a '
+        'node is internal (export=False, case key `hidden`), incl. histories that enable an internal module by name and then '
+        'send `logging . off`, *IDN? or disconnect; levels: all valid names, '
         'case variants, invalid names, ints, floats, None, bools, lists, dicts; every history ends with a probe sweep '
         '(every module x every named level); random (seeded) plus exhaustive short histories. '
         'rotation: real LogfileHandler in a temp dir (time.strftime of mlzlog patched), directories of 0..9 dated files, '
@@ -43,6 +45,10 @@ ASSUMPTIONS = [
     'so that name order is date order; no entry named `current` is a directory; the file of the day, if it exists, is a '
     'regular file',
     'sequential cases: one request at a time, records are emitted between requests',
+    'internal modules (export=False): the stop clause is unconditional (off for all modules, *IDN?, disconnect leave no '
+    'module enabled, internal or not); whether an ENABLING `logging . <level>` includes internal modules is not said by the '
+    'property text: the oracle accepts both there (the model follows the code: it does, deviations are correspondence '
+    'mismatches); a request naming an internal module is a valid request',
     'concurrent cases: every connection is served by ONE thread (requests, *IDN? and the final remove_connection of a connection '
     'are ordered, as in frappy.protocol.interface where handle() and finish() run in the thread of the connection); threads are '
     'interleaved at dict-operation granularity: every in-place operation of a builtin dict (setdefault, item assignment, pop, '
@@ -120,8 +126,12 @@ def build_node(case, conn_class=None, handler_hook=None):
                 handler_hook(h)
     srv = Srv(root)
     mods = {}
+    hidden = set(case.get('hidden') or ())
     for n in case['mods']:
-        m = Mod(n, root.getChild(n), {'description': ''}, srv)
+        # internal modules (export=False) sit in secnode.modules next to the exported ones
+        m = Mod(n, root.getChild(n), {'description': '', 'export': False} if n in hidden else {'description': ''}, srv)
+        if m.export is not (n not in hidden):
+            raise AssertionError(f'export of {n}: {m.export!r}')
         srv.secnode.add_module(m, n)
         mods[n] = m
     disp = srv.dispatcher
@@ -436,7 +446,7 @@ def enc_conc(case, obs):
             table.append('(%s, [(999%%nat, 0%%Z)])' % gstr('?' + m))
     return 'CConc %s %s %s %s [%s] [%s] [%s] %s %s' % (
         enc_levels(obs['levels']),
-        gal.lst(case['mods'], gstr),
+        enc_node(case),
         enc_ops(case['pre'], obs['pre']), enc_robs(obs['pre']),
         '; '.join(threads), '; '.join(f'({t}, {a})' for t, a in events), '; '.join(table),
         enc_ops(case['sweep'], obs['sweep']), enc_robs(obs['sweep']))
@@ -453,13 +463,18 @@ def encode(case, obs):
     return f'({lets}{body})'
 
 
+def enc_node(case):
+    hidden = set(case.get('hidden') or ())
+    return gal.lst(case['mods'], lambda n: '(%s %s)' % ('mh' if n in hidden else 'mx', gstr(n)))
+
+
 def encode_body(case, obs):
     if case['kind'] == 'conc':
         return enc_conc(case, obs)
     if case['kind'] == 'route':
         return 'CRoute %s %s %s %s' % (
             enc_levels(obs['levels']),
-            gal.lst(case['mods'], gstr),
+            enc_node(case),
             enc_ops(case['ops'], obs['steps']), enc_robs(obs['steps']))
     steps = ['{| s_date := %s; s_raised := %s; s_listing := %s |}' % (
         gstr(s['date']), gal.boolean(s['exc'] is not None), gal.lst(s['listing'], enc_entry))
@@ -497,14 +512,26 @@ def oracle_route(case, obs):
         fails.append(dict({'class': cls, 'what': what}, **kw))
 
     mods = case['mods']
-    chosen = {}        # (conn, module) -> level number
+    hidden = set(case.get('hidden') or ())
+    # (conn, module) -> the set of levels that may be in force (None = off).  One element everywhere except for an INTERNAL
+    # module (export=False) after an ENABLING request addressing all modules: the property text does not say whether
+    # "all modules" of `logging . <level>` includes modules the description does not show, so both answers are accepted
+    # there (the model follows the code: it does; any deviation is a correspondence mismatch).  The stop clause is
+    # unconditional: off for all modules, *IDN? and disconnect leave NO module enabled, internal or not.
+    poss = {}
+    OFFSET = frozenset([None])
+
+    def show(p):
+        return '/'.join('off' if x is None else str(x) for x in sorted(p, key=lambda x: (x is not None, x or 0)))
+
     for idx, (op, s) in enumerate(zip(case['ops'], obs['steps'])):
         delivered = any(s['sent'])
         if op[0] != 'emit' and delivered:
             fail('spurious-delivery', f'op {idx} {op}: log messages were sent although no record was emitted', op=idx)
         if op[0] == 'log':
             _, c, spec, lv = op
-            targets = mods if spec in (None, '', '.') else [spec] if spec in mods else None
+            to_all = spec in (None, '', '.')
+            targets = mods if to_all else [spec] if spec in mods else None
             sl = spec_level(lv)
             accepted = s['exc'] is None
             if accepted:
@@ -514,27 +541,31 @@ def oracle_route(case, obs):
                 num = SPEC_LEVELS[lv.lower()] if isinstance(lv, str) else int(lv)
                 for m in targets or []:
                     if num == SPEC_LEVELS['off']:
-                        chosen.pop((c, m), None)
+                        poss.pop((c, m), None)
+                    elif to_all and m in hidden:
+                        poss[(c, m)] = poss.get((c, m), OFFSET) | {num}
                     else:
-                        chosen[(c, m)] = num
+                        poss[(c, m)] = frozenset([num])
             else:
                 if targets is not None and isinstance(sl, int):
                     fail('rejected-valid-request', f'op {idx} {op}: valid logging request raised {s["exc"]}', op=idx)
         elif op[0] in ('idn', 'disc'):
             for m in mods:
-                chosen.pop((op[1], m), None)
+                poss.pop((op[1], m), None)
         elif op[0] == 'emit':
             _, m, lv = op
             for c in range(case['nconn']):
                 msgs = s['sent'][c]
-                want = (c, m) in chosen and lv >= chosen[(c, m)]
-                if want and not msgs:
-                    fail('missed-delivery', f'op {idx} {op}: connection {c} chose level {chosen[(c, m)]} for {m} but got '
+                p = poss.get((c, m), OFFSET)
+                wants = {x is not None and lv >= x for x in p}
+                kind = ' (internal module)' if m in hidden else ''
+                if wants == {True} and not msgs:
+                    fail('missed-delivery', f'op {idx} {op}: connection {c} chose level {show(p)} for {m}{kind} but got '
                          f'nothing (emit raised {s["exc"]})', op=idx, conn=c)
-                elif not want and msgs:
-                    fail('spurious-delivery', f'op {idx} {op}: connection {c} (level for {m}: {chosen.get((c, m), "off")}) '
+                elif wants == {False} and msgs:
+                    fail('spurious-delivery', f'op {idx} {op}: connection {c} (level for {m}{kind}: {show(p)}) '
                          f'got {msgs}', op=idx, conn=c)
-                elif want:
+                elif msgs:
                     good = [m2 for m2 in msgs if m2[0] == 'log' and m2[1] == m and m2[3] == f'e{idx}'
                             and (lv not in SPEC_NAMES or m2[2] == SPEC_NAMES[lv])]
                     if len(msgs) != 1 or len(good) != 1:
@@ -624,7 +655,8 @@ def oracle_conc(case, obs):
     n_before = len(ops)
     ops += case['sweep']
     steps += obs['sweep']
-    for f in oracle_route({'mods': case['mods'], 'nconn': case['nconn'], 'ops': ops}, {'steps': steps}):
+    for f in oracle_route({'mods': case['mods'], 'hidden': case.get('hidden'), 'nconn': case['nconn'], 'ops': ops},
+                          {'steps': steps}):
         where = 'after all threads finished' if f.get('op', 0) >= n_before else 'request of a thread'
         fails.append(dict(f, what=f'[{where}] ' + f['what']))
     # records emitted while the threads ran
@@ -769,6 +801,18 @@ def outcome_labels(case, obs):
         return sorted(labs)
     if case['kind'] == 'route':
         labs.add('route')
+        hid = set(case.get('hidden') or ())
+        if hid:
+            labs.add('node-with-internal-modules')
+            got = set()          # (conn, internal module) that received a record
+            for op, s in zip(case['ops'], obs['steps']):
+                if op[0] == 'emit' and op[1] in hid:
+                    got.update((c, op[1]) for c, x in enumerate(s['sent']) if x)
+                elif op[0] in ('idn', 'disc') and any(c == op[1] for c, _ in got):
+                    labs.add('stop-of-a-connection-subscribed-to-an-internal-module')
+                    got = {(c, m) for c, m in got if c != op[1]}
+                elif op[0] == 'log' and op[2] in (None, '', '.') and s['exc'] is None and any(c == op[1] for c, _ in got):
+                    labs.add('request-for-all-modules-by-a-connection-subscribed-to-an-internal-module')
         for op, s in zip(case['ops'], obs['steps']):
             if s['exc']:
                 labs.add(f'{op[0]}-raised-{s["exc"]}')
@@ -831,16 +875,51 @@ def rand_route(rng):
             ops.append(['idn', c])
         else:
             ops.append(['disc', c])
-    return {'kind': 'route', 'mods': mods, 'nconn': nconn, 'ops': ops + sweep(mods)}
+    case = {'kind': 'route', 'mods': mods, 'nconn': nconn, 'ops': ops + sweep(mods)}
+    if rng.random() < 0.4:
+        # internal modules (export=False) next to exported ones: any non-empty subset, sometimes every module
+        case['hidden'] = sorted(rng.sample(mods, rng.randint(1, len(mods))))
+    return case
 
 
-def exhaustive_route(depth):
+def rand_stop_internal(rng):
+    """a connection enables modules by name (internal ones among them) or all at once, then stops: `logging . off` (any
+    spelling of the specifier and of off), *IDN? or disconnect; other connections keep their own subscriptions; records of
+    every module before and after"""
+    mods = rng.sample(MOD_POOL, rng.randint(1, 3))
+    hidden = sorted(rng.sample(mods, rng.randint(1, len(mods))))
+    nconn = rng.randint(1, 3)
+    ops = []
+    for _ in range(rng.randint(1, 4)):
+        c = rng.randrange(nconn)
+        spec = rng.choice(hidden * 3 + mods + ['.', ''])
+        ops.append(['log', c, spec, rng.choice(['debug', 'comlog', 'info', 'warning', 'error', 'Debug', 10, 20.0])])
+        if rng.random() < 0.3:
+            ops.append(['emit', rng.choice(mods), rng.choice(EMIT_LEVELS)])
+    for _ in range(rng.randint(1, 2)):
+        c = rng.randrange(nconn)
+        r = rng.random()
+        if r < 0.4:
+            ops.append(['log', c, rng.choice(['.', '.', '', None]), rng.choice(['off', 'off', 'OFF', 'Off', 99, 99.0])])
+        elif r < 0.7:
+            ops.append(['idn', c])
+        else:
+            ops.append(['disc', c])
+        if rng.random() < 0.5:
+            ops.append(['emit', rng.choice(hidden), rng.choice(EMIT_LEVELS)])
+    return {'kind': 'route', 'mods': mods, 'hidden': hidden, 'nconn': nconn, 'ops': ops + sweep(mods)}
+
+
+def exhaustive_route(depth, hidden=None):
     mods = ['m0', 'm1']
     alpha = [['log', 0, 'm0', 'debug'], ['log', 0, '.', 'warning'], ['log', 0, 'm0', 'off'], ['log', 0, '', 'off'],
              ['log', 1, 'm0', 'info'], ['log', 1, 'm1', 'comlog'], ['log', 1, '.', 'bad'], ['log', 0, 'm1', 40],
              ['idn', 0], ['disc', 1], ['emit', 'm0', 20], ['emit', 'm1', 50]]
     for ops in itertools.product(alpha, repeat=depth):
-        yield {'kind': 'route', 'mods': mods, 'nconn': 2, 'ops': [list(o) for o in ops] + sweep(mods)}
+        case = {'kind': 'route', 'mods': mods, 'nconn': 2, 'ops': [list(o) for o in ops] + sweep(mods)}
+        if hidden:
+            case['hidden'] = list(hidden)
+        yield case
 
 
 def day(i):
@@ -995,9 +1074,15 @@ def gen_cases(seed, tier):
     cases += list(template_cases(tier != 'quick'))
     cases += [rand_route(rng) for _ in range(n_route)]
     cases += [rand_rot(rng) for _ in range(n_rot)]
+    hrng = random.Random(seed * 9176 + 206)          # own stream: the other generators draw what they drew before
+    cases += [rand_stop_internal(hrng) for _ in range({'quick': 300}.get(tier, 3000))]
     depths = (1, 2) if tier == 'quick' else (1, 2, 3, 4)
     for d in depths:
         cases.extend(exhaustive_route(d))
+    # the same alphabet on a node whose module m1 is internal (the alphabet enables m1 by name, switches all off,
+    # re-identifies, disconnects)
+    for d in (1, 2) if tier == 'quick' else (1, 2, 3):
+        cases.extend(exhaustive_route(d, hidden=['m1']))
     cases.extend(exhaustive_rot())
     return cases
 
@@ -1045,9 +1130,16 @@ def shrink(case):
             yield dict(case, ops=ops[:i] + ops[i + 1:])
         if case['nconn'] > 1 and all(o[0] == 'emit' or o[1] < case['nconn'] - 1 for o in ops):
             yield dict(case, nconn=case['nconn'] - 1)
+        hid = list(case.get('hidden') or [])
         for m in case['mods'][1:]:
             if all(not (o[0] == 'emit' and o[1] == m) and not (o[0] == 'log' and o[2] == m) for o in ops):
-                yield dict(case, mods=[x for x in case['mods'] if x != m])
+                small = dict(case, mods=[x for x in case['mods'] if x != m])
+                if hid:
+                    small['hidden'] = [x for x in hid if x != m]
+                yield small
+        for m in hid:
+            # an exported module instead of an internal one
+            yield dict(case, hidden=[x for x in hid if x != m])
     else:
         if len(case['dates']) > 1:
             yield dict(case, dates=case['dates'][:-1])
